@@ -26,8 +26,9 @@
    Statements of a program (the real generator emits them; `Exec` is what they must do):
      [op |-> "const",  dst, v]            dst := v
      [op |-> "copy",   dst, src]          dst := src       (both fixed-point or both integer)
-     [op |-> "add",    dst, src, v]       dst := src + v   (same integer format)
-     [op |-> "update", d, flags, dst]     map_update_elem(d, key[d], val[d], flags); dst := r0
+     [op |-> "add",    dst, src, v]       dst := src + v   (same format; also what `dst += v` must do)
+     [op |-> "update", d, flags, dst]     d.update(flags); dst := r0    flags: the NAME the program wrote -
+                                          "ANY", "NOEXIST" (insert only) or "EXIST" (modify only)
      [op |-> "lookup", d, body, els]      with d.lookup() as (value, Else): body   with Else: els
    Locations: [k |-> "a", id, i] element i of array variable id (on the CPU of the run);
      [k |-> "h", id] hash variable; [k |-> "key" / "val", id, i] member i of the key / value that the
@@ -99,8 +100,8 @@ Err(n) == WFromInt(-n, VL)
 Update(D, S, s) ==
     LET dd == S.d[s.d]  kt == S.key[s.d]  vt == S.val[s.d]  decl == D.dicts[s.d] IN
     IF ~dd.known \/ AnyUnknown(kt) THEN Write(D, [S EXCEPT !.d[s.d] = HavocDict], s.dst, Unknown)
-    ELSE IF s.flags = 1 /\ kt \in DOMAIN dd.m THEN Write(D, S, s.dst, NonZero)
-    ELSE IF s.flags = 2 /\ kt \notin DOMAIN dd.m THEN Write(D, S, s.dst, NonZero)
+    ELSE IF s.flags = "NOEXIST" /\ kt \in DOMAIN dd.m THEN Write(D, S, s.dst, NonZero)
+    ELSE IF s.flags = "EXIST" /\ kt \notin DOMAIN dd.m THEN Write(D, S, s.dst, NonZero)
     ELSE IF decl.lru THEN
          \* an LRU map gives no retention guarantee: any update may evict any entry (the kernel's
          \* per-CPU free lists do so long before the map is full, even for the key being updated)
@@ -126,8 +127,7 @@ Exec1(D, S, s) ==
       [] s.op = "add" ->
            LET v == Read(D, S, s.src) IN
            Write(D, S, s.dst, IF IsWord(v) /\ LocFmt(D, S, s.src) = LocFmt(D, S, s.dst)
-                                 /\ ~Fixed(LocFmt(D, S, s.src))
-                              THEN WAdd(v, s.v) ELSE Unknown)
+                              THEN WAdd(v, s.v) ELSE Unknown)      \* fixed point: s.v in the same unit (scaled)
       [] s.op = "update" -> Update(D, S, s)
       [] s.op = "lookup" ->
            LET dd == S.d[s.d]  kt == S.key[s.d] IN
